@@ -11,7 +11,7 @@ import os
 from .core import DAY
 from .calendar_ref import is_bday, ymd
 
-SYMS = ["AAA", "BBB", "CCC", "DDD", "EEE", "FFF"]
+SYMS = ["AAA", "BBB", "CCC", "DDD", "EEE", "FFF", "GGG", "HHH", "III", "JJJ"]
 
 
 def r4(x):
